@@ -41,7 +41,8 @@ pub fn decode(mut src: &[u8], mut uncompressed_size: usize) -> io::Result<Vec<u8
     let mut dst = vec![0; uncompressed_size];
 
     if flags.is_uncompressed() {
-        dst.copy_from_slice(src);
+        let buf = split_off(&mut src, uncompressed_size)?;
+        dst.copy_from_slice(buf);
     } else if flags.order() == 0 {
         order_0::decode(&mut src, &mut dst, state_count)?;
     } else {
